@@ -150,23 +150,30 @@ def check_neighborhood_model(ctx, rng):
             inputs, output, size_dict, _ = ladder_net(rng, ctx.quick)
         else:
             inputs, output, size_dict, _ = ordinary_net(rng, ctx.quick)
-        hg = HyperGraph(inputs, output, size_dict)
-        term = "(hg_init (inputs {n}) (output {n}) (szd {n}))".format(n=gen.net_lit(inputs, output, size_dict))
         ops = []
-        for _ in range(rng.randint(0, max(0, len(inputs) - 2))):
-            if rng.random() < 0.6 and len(hg.nodes) > 2:
-                i, j = rng.sample(list(hg.nodes), 2)
-                hg.contract(i, j)
-                term = "(fst (hg_contract %d %d %s))" % (i, j, term)
-                ops.append(("contract", i, j))
-            else:
-                k = rng.choice(list(hg.nodes))
-                chi = rng.choice([1, 2, 4, 16])
-                hg.compress(chi, hg.get_node(k))
-                term = "(let g := %s in hg_compress %s (get_node g %d) g)" % (term, coq(Z(chi)), k)
-                ops.append(("compress", chi, k))
-        queries = [rng.sample(list(hg.nodes), rng.randint(1, min(3, len(hg.nodes)))) for _ in range(4)]
-        want = [(Z(hg.neighborhood_size(q)), [Z(hg.node_size(k)) for k in q]) for q in queries]
+        try:
+            hg = HyperGraph(inputs, output, size_dict)
+            term = "(hg_init (inputs {n}) (output {n}) (szd {n}))".format(n=gen.net_lit(inputs, output, size_dict))
+            for _ in range(rng.randint(0, max(0, len(inputs) - 2))):
+                if rng.random() < 0.6 and len(hg.nodes) > 2:
+                    i, j = rng.sample(list(hg.nodes), 2)
+                    hg.contract(i, j)
+                    term = "(fst (hg_contract %d %d %s))" % (i, j, term)
+                    ops.append(("contract", i, j))
+                else:
+                    k = rng.choice(list(hg.nodes))
+                    chi = rng.choice([1, 2, 4, 16])
+                    hg.compress(chi, hg.get_node(k))
+                    term = "(let g := %s in hg_compress %s (get_node g %d) g)" % (term, coq(Z(chi)), k)
+                    ops.append(("compress", chi, k))
+            queries = [rng.sample(list(hg.nodes), rng.randint(1, min(3, len(hg.nodes)))) for _ in range(4)]
+            want = [(Z(hg.neighborhood_size(q)), [Z(hg.node_size(k)) for k in q]) for q in queries]
+        except Exception as e:
+            # the implementation must not raise on a hypergraph reached by its own contract / compress
+            ctx.fail("HyperGraph contract / compress / neighborhood_size raised %r on a hypergraph reached by "
+                     "its own operations" % (e,),
+                     {"inputs": inputs, "output": output, "size_dict": size_dict, "ops": ops})
+            continue
         lhs = "(let g := %s in map (fun q => (neighborhood_size g q, map (hg_node_size g) q)) %s)" % (term, coq(queries))
         cases.append(("nbhd%d" % ci, lhs, coq(want)))
         recs.append({"inputs": inputs, "output": output, "size_dict": size_dict, "ops": ops, "queries": queries,
